@@ -34,6 +34,8 @@ def gen_cases(ck):
         add(g.gen_build_tree(rng, "wf"), "wf_enumcomments")
     for i in range(250 if quick else 4000):
         add(g.gen_build_tree(rng, "wild"), "wild")
+    for i in range(300 if quick else 5000):
+        add(g.one_fault_tree(rng), "one_fault")
     # one member of each kind around every type shape up to depth 3
     import c13 as c13mod
     for t in c13mod.small_types(2 if quick else 3):
